@@ -9,6 +9,7 @@
 package main
 
 import (
+	"encoding/json"
 	"errors"
 	"fmt"
 	"net"
@@ -62,7 +63,7 @@ type family struct {
 	name   string
 	spec   map[uint64]string
 	shapes []shape
-	decode func(b []byte) (string, error)
+	decode func(b []byte, prev ...[]byte) (string, error)
 	// wrap embeds the tagged list into the structure the decoder expects (nil = the list itself)
 	wrap func(*vh.Item) *vh.Item
 	// firstAccepted: the shapes are candidates; per id only the first one accepted in minimal form is used
@@ -71,6 +72,41 @@ type family struct {
 	table string
 	// probeAlias renames observed variants to the labels the AST translation would give (probe fallback)
 	probeAlias map[string]string
+}
+
+// decodeInto decodes the encodings of prev (in order) and then b into the SAME
+// destination: the receiver of the last decode is "dirty" when prev is not empty.
+var errDirtySetup = errors.New("dirty receiver: a previous encoding was rejected")
+var lastDst any
+
+func decodeInto(dst any, b []byte, prev [][]byte) error {
+	for _, p := range prev {
+		if _, err := cbor.Decode(p, dst); err != nil {
+			return errDirtySetup
+		}
+	}
+	lastDst = dst
+	_, err := cbor.Decode(b, dst)
+	return err
+}
+
+// deepObs: what the decoded value presents beyond its variant: its re-encoding and its JSON form
+func deepObs(v any) (out string) {
+	defer func() {
+		if r := recover(); r != nil {
+			out = fmt.Sprintf("panic:%v", r)
+		}
+	}()
+	enc, err := cbor.Encode(v)
+	out = vh.Hex(enc)
+	if err != nil {
+		out = "enc-err"
+	}
+	js, jerr := json.Marshal(v)
+	if jerr != nil {
+		return out + "|json-err"
+	}
+	return out + "|" + string(js)
 }
 
 // table names of the first-round families
@@ -167,9 +203,9 @@ func families1() []family {
 				4: "NativeScriptInvalidBefore", 5: "NativeScriptInvalidHereafter", 6: "NativeScriptRequireGuard"},
 			[]shape{{0, []*vh.Item{h(28, 3)}}, {1, []*vh.Item{vh.A(pk())}}, {2, []*vh.Item{vh.A(pk())}}, {1, []*vh.Item{vh.A(pk(), pk())}},
 				{3, []*vh.Item{vh.U(1), vh.A(pk())}}, {4, []*vh.Item{vh.U(1000)}}, {5, []*vh.Item{vh.U(2000)}}, {6, []*vh.Item{cred()}}},
-			func(b []byte) (string, error) {
+			func(b []byte, prev ...[]byte) (string, error) {
 				var ns common.NativeScript
-				if _, err := cbor.Decode(b, &ns); err != nil {
+				if err := decodeInto(&ns, b, prev); err != nil {
 					return "", err
 				}
 				return trimType(ns.Item()), nil
@@ -190,9 +226,9 @@ func families1() []family {
 				{13, []*vh.Item{cred(), h(28, 9), vh.A(vh.U(2)), vh.U(2000000)}},
 				{14, []*vh.Item{cred(), cred()}}, {15, []*vh.Item{cred(), vh.Null()}}, {16, []*vh.Item{cred(), vh.U(500), vh.Null()}},
 				{17, []*vh.Item{cred(), vh.U(500)}}, {18, []*vh.Item{cred(), vh.Null()}}},
-			func(b []byte) (string, error) {
+			func(b []byte, prev ...[]byte) (string, error) {
 				var w common.CertificateWrapper
-				if _, err := cbor.Decode(b, &w); err != nil {
+				if err := decodeInto(&w, b, prev); err != nil {
 					return "", err
 				}
 				return trimType(w.Certificate), nil
@@ -200,9 +236,9 @@ func families1() []family {
 		{"nonce",
 			map[uint64]string{0: "NonceTypeNeutral", 1: "NonceTypeNonce"},
 			[]shape{{0, nil}, {1, []*vh.Item{h(32, 5)}}},
-			func(b []byte) (string, error) {
+			func(b []byte, prev ...[]byte) (string, error) {
 				var n common.Nonce
-				if _, err := cbor.Decode(b, &n); err != nil {
+				if err := decodeInto(&n, b, prev); err != nil {
 					return "", err
 				}
 				return map[uint]string{0: "NonceTypeNeutral", 1: "NonceTypeNonce"}[n.Type], nil
@@ -210,9 +246,9 @@ func families1() []family {
 		{"drep",
 			map[uint64]string{0: "DrepTypeAddrKeyHash", 1: "DrepTypeScriptHash", 2: "DrepTypeAbstain", 3: "DrepTypeNoConfidence"},
 			[]shape{{0, []*vh.Item{h(28, 5)}}, {1, []*vh.Item{h(28, 6)}}, {2, nil}, {3, nil}},
-			func(b []byte) (string, error) {
+			func(b []byte, prev ...[]byte) (string, error) {
 				var d common.Drep
-				if _, err := cbor.Decode(b, &d); err != nil {
+				if err := decodeInto(&d, b, prev); err != nil {
 					return "", err
 				}
 				return map[int]string{0: "DrepTypeAddrKeyHash", 1: "DrepTypeScriptHash", 2: "DrepTypeAbstain", 3: "DrepTypeNoConfidence"}[d.Type], nil
@@ -222,9 +258,9 @@ func families1() []family {
 				3: "NoConfidenceGovAction", 4: "UpdateCommitteeGovAction", 5: "NewConstitutionGovAction", 6: "InfoGovAction"},
 			[]shape{{6, nil}, {3, []*vh.Item{vh.Null()}}, {1, []*vh.Item{vh.Null(), vh.A(vh.U(10), vh.U(0))}},
 				{5, []*vh.Item{vh.Null(), vh.A(vh.A(vh.T("https://x"), h(32, 1)), vh.Null())}}},
-			func(b []byte) (string, error) {
+			func(b []byte, prev ...[]byte) (string, error) {
 				var g conway.ConwayGovAction
-				if _, err := cbor.Decode(b, &g); err != nil {
+				if err := decodeInto(&g, b, prev); err != nil {
 					return "", err
 				}
 				return trimType(g.Action), nil
@@ -232,9 +268,9 @@ func families1() []family {
 		{"peer-address",
 			map[uint64]string{0: "IPv4", 1: "IPv6"},
 			[]shape{{0, []*vh.Item{vh.U(0x0100007f), vh.U(3001)}}, {1, []*vh.Item{vh.U(1), vh.U(2), vh.U(3), vh.U(4), vh.U(3001)}}},
-			func(b []byte) (string, error) {
+			func(b []byte, prev ...[]byte) (string, error) {
 				var p peersharing.PeerAddress
-				if _, err := cbor.Decode(b, &p); err != nil {
+				if err := decodeInto(&p, b, prev); err != nil {
 					return "", err
 				}
 				switch len(p.IP) {
@@ -248,9 +284,9 @@ func families1() []family {
 		{"datum-option",
 			map[uint64]string{0: "DatumOptionTypeHash", 1: "DatumOptionTypeData"},
 			[]shape{{0, []*vh.Item{h(32, 2)}}, {1, []*vh.Item{vh.TagOf(24, vh.B([]byte{0x05}))}}},
-			func(b []byte) (string, error) {
+			func(b []byte, prev ...[]byte) (string, error) {
 				var d babbage.BabbageTransactionOutputDatumOption
-				if _, err := cbor.Decode(b, &d); err != nil {
+				if err := decodeInto(&d, b, prev); err != nil {
 					return "", err
 				}
 				// the variant is private; it is visible in what the option re-encodes to
